@@ -280,16 +280,26 @@ func stripLogging(fd *ast.FuncDecl) *ast.FuncDecl {
 	// into a log statement (e.g. one that takes a lock) moves the fingerprint
 	logMarker := func(s ast.Stmt) ast.Stmt {
 		var callees []string
-		ast.Inspect(s.(*ast.ExprStmt).X.(*ast.CallExpr), func(n ast.Node) bool {
+		top := s.(*ast.ExprStmt).X.(*ast.CallExpr)
+		ast.Inspect(top, func(n ast.Node) bool {
 			if ce, ok := n.(*ast.CallExpr); ok {
 				var b bytes.Buffer
 				printer.Fprint(&b, token.NewFileSet(), ce.Fun)
 				if !strings.HasPrefix(b.String(), "logging.") {
-					callees = append(callees, b.String())
+					callees = append(callees, b.String()+"()")
 				}
 			}
 			return true
 		})
+		// which variables are handed to the logger (the message text itself may change freely)
+		for _, a := range top.Args {
+			ast.Inspect(a, func(n ast.Node) bool {
+				if id, ok := n.(*ast.Ident); ok && id.Obj == nil && id.Name != "nil" && id.Name != "true" && id.Name != "false" {
+					callees = append(callees, id.Name)
+				}
+				return true
+			})
+		}
 		if len(callees) == 0 {
 			return nil
 		}
